@@ -7,6 +7,7 @@ package main
 
 import (
 	"fmt"
+	"strings"
 
 	"github.com/hneemann/parser2/funcGen"
 	"github.com/hneemann/parser2/value"
@@ -208,12 +209,85 @@ func (h *harness) check(ctx *bex.Ctx, prog *vlang.Node, trivialRule func(o strin
 	}
 }
 
+// runDeferred: lazy stages that call closures through the value stack, created and kept un-evaluated
+// while further locals / call frames are pushed, then consumed in another frame. Metamorphic oracle
+// (no model of the stage needed): the program with the list materialised at once (".eval()" behind the
+// stage) must give the same outcome as the program that keeps it lazy; the locals around it are
+// checked against their literal values by the observer list.
+func (h *harness) runDeferred(ctx *bex.Ctx) {
+	ctx.Space("deferred-lazy-stages")
+	stages := []string{"map(x->x*2+1)", "accept(x->x>1)", "combine((p,q)->p*3+q)", "combine3((p,q,r)->p*5+q*3+r)", "combineN(2,w->w[0]*7+w[1])",
+		"iir(x->x+1,(x,l)->x+l*2)", "iirCombine(x->x+2,(p,q,l)->p+q*2+l*3)", "number((i,v)->i*1000+v)", "compact((p,q)->p=q)", "cross([10,20],(p,q)->p*100+q)",
+		"merge([2,4],(p,q)->p<q)", "fsm((s,x)->{state:s.state+x}).map(m->m.state)", "top(4)", "skip(1)", "movingWindow(x->x).map(w->w.size())", "order(x->0-x)"}
+	consumers := []string{".size()", ".sum()", ".string()", ".first()", "[1]", ".reduce((p,q)->p*31+q)", ".last()"}
+	contexts := []string{
+		"let c=R.STAGE; let u=a+1; let v=a+2; let w=a+3; let n=c.CONS; [u,v,w,n]",
+		"let c=R.STAGE; func g(p,q) let n=c.CONS; [p,q,n]; g(a*10,a*20)",
+		"let c=R.STAGE; func f(k) if k=0 then [c.CONS] else [f(k-1),k*100]; f(2)",
+		"let c=R.STAGE; let m={f:(p,q)->[p,q,c.CONS]}; m.f(a,2)",
+		"let c=R.STAGE; [1,2].map(e->[e,c.CONS,a])",
+		"let c=R.STAGE; let u=a+1; try [u, c.CONS, throw(\"e\")] catch e->[u, c.CONS]",
+		"func mk(k) R.STAGE; let c=mk(1); let u=a+5; let v=a+6; [u,v,c.CONS,c.CONS]",
+		"let c=R.STAGE; obs2(a+1, let z=a+2; c.CONS*0+z)",
+		"let c=R.STAGE; let d=c.STAGE2; let u=a+1; let v=a+2; [u,v,d.size(),c.CONS]",
+	}
+	recvs := []string{"l", "numbers(a+5)"}
+	var idx int64
+	names := []string{"a", "l"}
+	argVals := [][]value.Value{}
+	for _, a := range []int64{0, 3} {
+		argVals = append(argVals, []value.Value{value.Int(a), value.NewList(value.Int(1), value.Int(1), value.Int(2), value.Int(2), value.Int(3), value.Int(3))})
+	}
+	for _, st := range stages {
+		for _, cons := range consumers {
+			for _, cx := range contexts {
+				for _, r := range recvs {
+					idx++
+					if !ctx.Mine(idx) || ctx.Expired() {
+						continue
+					}
+					lazy := strings.NewReplacer("STAGE2", "number((i,v)->i+v)", "R", r, "STAGE", st, ".CONS", cons).Replace(cx)
+					eager := strings.NewReplacer("STAGE2", "number((i,v)->i+v).eval()", "R", r, "STAGE", st+".eval()", ".CONS", cons).Replace(cx)
+					ctx.Begin(func() map[string]any { return map[string]any{"src": lazy} })
+					for gi, g := range h.gens {
+						fl, _, errL := g.Generate(lazy, names...)
+						fe, _, errE := g.Generate(eager, names...)
+						if errL != nil || errE != nil {
+							ctx.Eval()
+							ctx.Violate("deferred-stage template does not generate", map[string]any{"src": lazy, "eager": eager, "deferred": true}, "a function", fmt.Sprint(errL, errE), "")
+							continue
+						}
+						for ai, av := range argVals {
+							ctx.Eval()
+							ol := vrun.Eval(fl, av)
+							oe := vrun.Eval(fe, av)
+							ctx.Outcome("deferred:" + oe.Class())
+							if !oe.Err {
+								ctx.Nontrivial("d|" + lazy)
+							}
+							if ol.Err != oe.Err || (!ol.Err && ol.Canon != oe.Canon) {
+								ctx.Violate("a lazy stage consumed later, in another frame, gives a different outcome than the same stage materialised at once",
+									map[string]any{"src": lazy, "eager": eager, "a": []int64{0, 3}[ai], "optimizer": gi == 0, "deferred": true}, "materialised at once: "+oe.String(), "kept lazy: "+ol.String(), "")
+							}
+						}
+					}
+					if ctx.WantSample() && idx%97 == 0 {
+						ctx.Sample(map[string]any{"lazy": lazy, "eager_twin": eager})
+					}
+				}
+			}
+		}
+	}
+	ctx.SpaceDone(fmt.Sprintf("%d closure-calling lazy stages x %d consumers x %d contexts (later lets, another function frame, recursion, map-field closure, callback of another list method, try/catch, returned from a function, under a pushed argument, chained) x 2 sources; lazy program vs its materialise-at-once twin; a in {0,3}; optimizer on/off", len(stages), len(consumers), len(contexts)))
+}
+
 func run(ctx *bex.Ctx) {
 	h := newHarness()
 	maxA, maxB := 7, 4
 	if !ctx.Quick() {
 		maxA, maxB = 8, 5
 	}
+	h.runDeferred(ctx)
 	// tier B first (cheap, deep), then tier A
 	ctx.Space("tierB-binder-skeletons")
 	var idx int64
@@ -253,6 +327,17 @@ func run(ctx *bex.Ctx) {
 }
 
 func replay(repro map[string]any) (string, bool) {
+	if d, _ := repro["deferred"].(bool); d {
+		src, _ := repro["src"].(string)
+		eager, _ := repro["eager"].(string)
+		a, _ := repro["a"].(float64)
+		opt, _ := repro["optimizer"].(bool)
+		g := vrun.NewGen(opt, addHost)
+		args := []value.Value{value.Int(int64(a)), value.NewList(value.Int(1), value.Int(1), value.Int(2), value.Int(2), value.Int(3), value.Int(3))}
+		ol := vrun.Run(g, src, []string{"a", "l"}, args)
+		oe := vrun.Run(g, eager, []string{"a", "l"}, args)
+		return fmt.Sprintf("lazy %q -> %s | materialised twin %q -> %s", src, ol.String(), eager, oe.String()), ol.String() != oe.String()
+	}
 	src, _ := repro["src"].(string)
 	a, _ := repro["a"].(float64)
 	opt, _ := repro["optimizer"].(bool)
